@@ -285,12 +285,46 @@ def opRfactor : Handler := fun args impl =>
         let l := (NTV.Trial.factorize n.toNat).map (fun pe => ((pe.1 : Int), pe.2))
         let model := (present (mode == "json") l).replace "\n" "\\n"
         (model, if impl == model then "ok" else "fail:stdout-is-not-the-rendering-of-the-factorisation")
-      else ("-", "skip:no-reference-rendering-above-2^50")
+      else
+        -- no reference factorisation: read the factorisation back from the rendering (it must be the
+        -- rendering of what it says) and judge it like any other answer
+        let back : Option (List (Int × Nat)) :=
+          if mode == "json" then
+            let ps := (impl.splitOn "\"p\": \"").drop 1 |>.map (fun t => ((t.splitOn "\"").headD "").toInt?)
+            let es := (impl.splitOn "\"e\": ").drop 1 |>.map (fun t => (String.ofList (t.toList.takeWhile Char.isDigit)).toNat?)
+            if ps.length == es.length then (List.zip ps es).mapM (fun (p, e) => do pure ((← p), (← e))) else none
+          else
+            let toks := ((impl.replace "\\n" "").splitOn " ").filter (· != "")
+            match toks.mapM String.toInt? with
+            | some l => some (l.foldr (fun p acc => match acc with
+                | (q, e) :: rest => if q == p then (q, e + 1) :: rest else (p, 1) :: acc
+                | [] => [(p, 1)]) [])
+            | none => none
+        match back with
+        | none => ("-", "fail:unexpected-" ++ impl)
+        | some l =>
+          let model := (present (mode == "json") l).replace "\n" "\\n"
+          if impl != model then ("-", "fail:stdout-is-not-a-rendering-of-a-factorisation")
+          else ("-", NTV.Spec.Factor.checkFactorization n l [])
+    | none => bad
+  | _ => bad
+
+/-- `cli.fact n => p:e,…`: stdout of `rust-number-theory <config>` with `to_find = factorization` and an
+integer input (unhooked RNG: judged by the oracle; below 2^50 also compared with trial division) -/
+def opCliFact : Handler := fun args impl =>
+  match args with
+  | [ns] =>
+    match ns.toInt? with
+    | some n =>
+      let model :=
+        if n ≥ 1 && n < 2 ^ 50 then showPairs ((NTV.Trial.factorize n.toNat).map (fun pe => ((pe.1 : Int), pe.2)))
+        else "-"
+      (model, facVerdict n [] impl)
     | none => bad
   | _ => bad
 
 def ops : List (String × Handler) :=
-  [("ecm.add", opAdd), ("ecm.mul", opMul), ("ecm.oneshot", opOneshot),
+  [("cli.fact", opCliFact), ("ecm.add", opAdd), ("ecm.mul", opMul), ("ecm.oneshot", opOneshot),
    ("ecmp.simplify", opSimplify), ("ecmp.adds", opAdds), ("ecmp.oneshot", opOneshotPar),
    ("ecm.ecm", opEcm false), ("ecmp.ecm", opEcm true), ("selectb", opSelectB),
    ("ecm.factorize", opFactorize false), ("ecmp.factorize", opFactorize true),
